@@ -471,6 +471,90 @@ func TestVerifC08Ambiguity(t *testing.T) {
 	rep.RequireMin("disjoint_sets", 10)
 }
 
+// TestVerifC08UnmatchedLists: run() refuses to start when any of its four pattern lists (--run, --skip,
+// known failing, known flaky) holds a pattern that matches no permutation - whichever other lists are
+// given along with it - and names that pattern.
+func TestVerifC08UnmatchedLists(t *testing.T) {
+	rep := verifkit.Begin("C08", "unmatched-lists", "run() with an unstartable server command over a 3-test suite x 3 config cases; each of the four lists is absent / holds matching patterns / holds one pattern that matches nothing (every combination, 81); oracle: an error naming the unmatched pattern iff some list holds one; distinct = combination")
+	defer rep.Write()
+	suite := &conformancev1.TestSuite{Name: "S", TestCases: []*conformancev1.TestCase{
+		{Request: &conformancev1.ClientCompatRequest{TestName: "u/one", StreamType: conformancev1.StreamType_STREAM_TYPE_UNARY}},
+		{Request: &conformancev1.ClientCompatRequest{TestName: "u/two", StreamType: conformancev1.StreamType_STREAM_TYPE_UNARY}},
+		{Request: &conformancev1.ClientCompatRequest{TestName: "three", StreamType: conformancev1.StreamType_STREAM_TYPE_UNARY}},
+	}}
+	cases := []configCase{
+		{Version: 1, Protocol: 1, Codec: 1, Compression: 1, StreamType: 1},
+		{Version: 1, Protocol: 3, Codec: 1, Compression: 1, StreamType: 1},
+		{Version: 2, Protocol: 2, Codec: 1, Compression: 1, StreamType: 1},
+	}
+	// disjoint matching patterns per list so that no other refusal (ambiguity) interferes
+	matching := [4][]string{{"S/**"}, {"**/three"}, {"**/u/one"}, {"**/u/two"}}
+	bogus := [4]string{"S/**/no-such-run", "Nope/**", "S/*/never-failing", "**/never-flaky/x"}
+	what := [4]string{"--run", "--skip", "known failing", "known flaky"}
+	for combo := 0; combo < 81; combo++ {
+		var lists [4][]string
+		var wantUnmatched []string
+		desc := map[string]any{}
+		c := combo
+		for li := 0; li < 4; li++ {
+			switch c % 3 {
+			case 1:
+				lists[li] = matching[li]
+			case 2:
+				lists[li] = append(append([]string{}, matching[li]...), bogus[li])
+				wantUnmatched = append(wantUnmatched, bogus[li])
+			}
+			desc[what[li]] = lists[li]
+			c /= 3
+		}
+		rep.Eval(1)
+		rep.DistinctKey(combo)
+		trie := func(ps []string, nilWhenEmpty bool) *testTrie {
+			if len(ps) == 0 && nilWhenEmpty {
+				return nil
+			}
+			if t := parsePatterns(ps); t != nil {
+				return t
+			}
+			return &testTrie{}
+		}
+		var runErr error
+		p := verifkit.Catch(func() {
+			flags := &Flags{ServerCommand: []string{"/nonexistent/verif-no-such-server"}, MaxServers: 2, Parallelism: 2}
+			_, runErr = run(cases, trie(lists[2], false), trie(lists[3], false), trie(lists[0], true), trie(lists[1], true),
+				map[string]*conformancev1.TestSuite{"s.yaml": suite}, internal.NewPrinter(discard{}), internal.NewPrinter(discard{}), flags)
+		})
+		if p != nil {
+			rep.Violation("unmatched/panic/"+p.Site, p.Value, map[string]any{"input": desc, "stack": p.Stack})
+			continue
+		}
+		isUnm := runErr != nil && strings.Contains(runErr.Error(), "unmatched")
+		if len(wantUnmatched) == 0 {
+			rep.Count("all_patterns_match", 1)
+			if isUnm {
+				rep.Violation("unmatched/spurious", fmt.Sprintf("every pattern matches some permutation, yet: %v", runErr), desc)
+			}
+			continue
+		}
+		rep.Count("some_pattern_unmatched", 1)
+		if !isUnm {
+			rep.Violation("unmatched/not-reported", fmt.Sprintf("patterns %q match no permutation but run() did not refuse them (err=%v)", wantUnmatched, runErr), desc)
+			continue
+		}
+		named := false
+		for _, u := range wantUnmatched {
+			named = named || strings.Contains(runErr.Error(), u)
+		}
+		if !named {
+			rep.Violation("unmatched/not-named", fmt.Sprintf("the refusal names none of the unmatched patterns %q: %v", wantUnmatched, runErr), desc)
+		}
+	}
+	rep.Exhaustive = true
+	rep.Sample(map[string]any{"--run": []string{"S/**", "S/**/no-such-run"}, "--skip": []string{"**/three"}, "expect": "refused: run patterns: unmatched ... S/**/no-such-run"})
+	rep.RequireMin("some_pattern_unmatched", 60)
+	rep.RequireMin("all_patterns_match", 10)
+}
+
 type discard struct{}
 
 func (discard) Write(p []byte) (int, error) { return len(p), nil }
